@@ -344,4 +344,3 @@ func (k *K) msgRecvRule(prefix string) {
 			"handler can return success although PacketKeeper.RecvPacket failed with another error")
 	}
 }
-
